@@ -15,7 +15,9 @@ import (
 	"runtime"
 	"sort"
 	"strings"
+	"sync"
 	"sync/atomic"
+	"time"
 )
 
 // Op describes the operation a thread is about to perform.
@@ -520,6 +522,14 @@ func Go(fn func()) {
 func GoNamed(name string, fn func()) *Thread {
 	x := Cur()
 	if x == nil {
+		if freeRun.Load() {
+			freeWG.Add(1)
+			go func() {
+				defer freeWG.Done()
+				fn()
+			}()
+			return nil
+		}
 		go fn()
 		return nil
 	}
@@ -560,6 +570,12 @@ func Choose(n int, label string) int {
 // Quiesce blocks the caller until no other thread is enabled (all others finished or blocked).
 func Quiesce() {
 	x := Cur()
+	if x == nil && freeRun.Load() {
+		// wait for the harness threads, then give SDK-internal goroutines (event loops, Remove) a moment
+		freeWG.Wait()
+		time.Sleep(2 * time.Millisecond)
+		return
+	}
 	if x == nil || x.aborting {
 		return
 	}
@@ -656,4 +672,34 @@ func SetFinalizer(obj interface{}, finalizer interface{}) {
 	if FinalizersEnabled {
 		runtime.SetFinalizer(obj, finalizer)
 	}
+}
+
+// ---------------------------------------------------------------------------------
+// Free-running mode: the same harness bodies run on real goroutines with the real
+// sync primitives (shims in pass-through), for the separate `go build -race` pass that
+// validates the explorer's assumption that instrumented operations are the only
+// inter-thread communication. No exploration, no oracles.
+// ---------------------------------------------------------------------------------
+
+var (
+	freeRun   atomic.Bool
+	freeWG    sync.WaitGroup
+	// FreeMu serialises the (deliberately not thread-safe) doubles in free-running mode.
+	FreeMu sync.Mutex
+)
+
+// SetFreeRun switches free-running mode on or off.
+func SetFreeRun(on bool) { freeRun.Store(on) }
+
+// FreeRunning reports whether free-running mode is on.
+func FreeRunning() bool { return freeRun.Load() }
+
+// LockDoubles is called by every double operation: under the explorer it does nothing,
+// in free-running mode it takes the global doubles lock. Usage: defer vsched.LockDoubles()().
+func LockDoubles() func() {
+	if !freeRun.Load() || Active() {
+		return func() {}
+	}
+	FreeMu.Lock()
+	return FreeMu.Unlock
 }
